@@ -287,7 +287,7 @@ fn gen_init(r: &mut Rng) -> InitParams {
         toll: ratio(r),
         spread: ratio(r),
         fluct,
-        period: *r.pick(&[3600u64, 86400, 43200, 7200, 1800]),
+        period: *r.pick(&[3600u64, 86400, 43200, 7200, 1800, 18000, 25200, 3000]),
         qr,
         br,
         time: 1_571_797_419 + r.below(1000),
